@@ -58,14 +58,16 @@ type script struct {
 	small   bool // two-thread scenario small enough to be explored without a bound in thorough
 }
 
-func w(op string, reg int) call         { return call{op: op, reg: reg} }
-func c(op string) call                  { return call{op: op} }
-func cm(op string, m os.FileMode) call  { return call{op: op, mode: m} }
-func ct(op string, ts int) call         { return call{op: op, ts: ts} }
-func cp(op string, p string) call       { return call{op: op, path: p} }
-func wp(op string, reg int) call        { return call{op: op, reg: reg, path: "/d/f"} } // path-based write: Lookup first
-func isWrite(op string) bool            { return op == "write" || op == "writens" || op == "wflush" || op == "swrite" }
-func letter(thr, idx int) byte          { return byte('A' + thr*3 + idx) }
+func w(op string, reg int) call        { return call{op: op, reg: reg} }
+func c(op string) call                 { return call{op: op} }
+func cm(op string, m os.FileMode) call { return call{op: op, mode: m} }
+func ct(op string, ts int) call        { return call{op: op, ts: ts} }
+func cp(op string, p string) call      { return call{op: op, path: p} }
+func wp(op string, reg int) call       { return call{op: op, reg: reg, path: "/d/f"} } // path-based write: Lookup first
+func isWrite(op string) bool {
+	return op == "write" || op == "writens" || op == "wflush" || op == "swrite"
+}
+func letter(thr, idx int) byte { return byte('A' + thr*3 + idx) }
 func (cl call) data(thr, idx int) string {
 	n := regLen
 	if cl.reg < 0 {
@@ -89,16 +91,16 @@ type ev struct {
 }
 
 type exec struct {
-	sc    *script
-	log   []ev
-	infl  map[int]string // thread -> call in flight
-	ctx   context.Context
-	dserv ipld.DAGService
-	rt    *mfs.Root
-	d     *mfs.Directory
-	fi    *mfs.File
-	sfd   mfs.FileDescriptor
-	pubs  []cid.Cid
+	sc       *script
+	log      []ev
+	infl     map[int]string // thread -> call in flight
+	ctx      context.Context
+	dserv    ipld.DAGService
+	rt       *mfs.Root
+	d        *mfs.Directory
+	fi       *mfs.File
+	sfd      mfs.FileDescriptor
+	pubs     []cid.Cid
 	setupErr string
 }
 
@@ -468,7 +470,6 @@ func (x *exec) Outcome() string {
 		return "setup-error:" + x.setupErr
 	}
 	// per-thread results in program order (independent of interleaving), then the final observations
-	type k struct{ thr, idx int }
 	var rets []ev
 	for _, e := range x.log {
 		if e.kind == "ret" {
@@ -827,8 +828,8 @@ func scenarios(r *eng.Run) []*vexp.Scenario {
 		}
 		out = append(out, &vexp.Scenario{
 			Name: s.name, BoundDelta: delta,
-			Cfg:  vsched.Config{MaxSteps: 20000, MaxIdleFires: 12, SelectCost: 1},
-			New:  func() vexp.Exec { return &exec{sc: s} },
+			Cfg: vsched.Config{MaxSteps: 20000, MaxIdleFires: 12, SelectCost: 1},
+			New: func() vexp.Exec { return &exec{sc: s} },
 		})
 	}
 	return out
